@@ -1,8 +1,245 @@
 import PyresampleModel.Model.C17
+import Mathlib.Algebra.BigOperators.Fin
+import Mathlib.Algebra.BigOperators.Intervals
+import Mathlib.Data.ZMod.Defs
+import Mathlib.Tactic.Ring
+import Mathlib.Tactic.Linarith
+import Mathlib.Tactic.LinearCombination
 
 /-
-  C17 — property theorems (stub: none yet).
+  C17 — property theorems on the combinatorial skeleton of the spherical-polygon area and of the no-crossing decision of the
+  boolean operations.  The angle function is a parameter: the geometric facts (invariance under rotations of the sphere, the
+  angle seen from the other side is 2 pi minus the angle, angles add up at a diagonal) are HYPOTHESES, checked numerically on the
+  real code by the harness.  The identities are polynomial, so they hold verbatim over the reals.
 -/
 namespace PyresampleModel.C17
+
+open Finset
+
+theorem sum_range_eq (f : Nat → Rat) (n : Nat) : ((List.range n).map f).sum = ∑ i ∈ range n, f i := by
+  induction n with
+  | zero => simp
+  | succ n ih => rw [List.range_succ, List.map_append, List.sum_append, ih, Finset.sum_range_succ]; simp
+
+/-- a sum over one period does not depend on where the period starts -/
+theorem cyc_shift (n : Nat) (hn : 0 < n) (g : Nat → Rat) (k : Nat) :
+    ∑ i ∈ range n, g ((i + k) % n) = ∑ i ∈ range n, g i := by
+  have : NeZero n := ⟨Nat.pos_iff_ne_zero.mp hn⟩
+  rw [← Fin.sum_univ_eq_sum_range (fun i => g ((i + k) % n)) n, ← Fin.sum_univ_eq_sum_range g n]
+  let e : Fin n ≃ Fin n := Equiv.addRight (Fin.ofNat n k)
+  apply Fintype.sum_equiv e
+  intro i
+  show g ((i.val + k) % n) = g (e i).val
+  congr 1
+  simp only [e, Equiv.coe_addRight, Fin.val_add, Fin.val_ofNat, Nat.add_mod_mod]
+
+/-- reflection of the summation index -/
+theorem cyc_reflect (n : Nat) (hn : 0 < n) (g : Nat → Rat) (c : Nat) :
+    ∑ i ∈ range n, g ((c + (n - 1 - i)) % n) = ∑ i ∈ range n, g i := by
+  rw [Finset.sum_range_reflect (fun j => g ((c + j) % n)) n]
+  have := cyc_shift n hn g c
+  simpa [Nat.add_comm] using this
+
+variable {α : Type}
+
+/-- **cyclic relabelling**: starting the vertex list at another vertex does not change the area -/
+theorem area_cyclic (ang : α → α → α → Rat) (pi r : Rat) (n : Nat) (hn : 0 < n) (v : Nat → α) (k : Nat) :
+    areaFn ang pi r n (fun j => v ((j + k) % n)) = areaFn ang pi r n v := by
+  unfold areaFn angleSumFn
+  rw [sum_range_eq, sum_range_eq]
+  have h := cyc_shift n hn (fun i => ang (v (i % n)) (v ((i + 1) % n)) (v ((i + 2) % n))) k
+  have e1 : ∀ i ∈ range n, ang (v ((i + k) % n)) (v (((i + 1) % n + k) % n)) (v (((i + 2) % n + k) % n)) =
+      ang (v ((i + k) % n % n)) (v (((i + k) % n + 1) % n)) (v (((i + k) % n + 2) % n)) := by
+    intro i _
+    congr 2
+    · rw [Nat.mod_mod]
+    · rw [Nat.mod_add_mod, Nat.mod_add_mod]; congr 1; omega
+    · rw [Nat.mod_add_mod, Nat.mod_add_mod]; congr 1; omega
+  have e2 : ∀ i ∈ range n, ang (v (i % n)) (v ((i + 1) % n)) (v ((i + 2) % n)) = ang (v i) (v ((i + 1) % n)) (v ((i + 2) % n)) := by
+    intro i hi
+    rw [Nat.mod_eq_of_lt (mem_range.mp hi)]
+  rw [Finset.sum_congr rfl e1, h, Finset.sum_congr rfl e2]
+
+/-- **radius**: the area scales with the square of the radius -/
+theorem area_radius (ang : α → α → α → Rat) (pi r : Rat) (n : Nat) (v : Nat → α) :
+    areaFn ang pi r n v = r * r * areaFn ang pi 1 n v := by
+  unfold areaFn; ring
+
+/-- **rotation of the sphere**: if the angle function is invariant under a map `g` of the vertices, so is the area -/
+theorem area_rotation (ang : α → α → α → Rat) (g : α → α) (hg : ∀ a p b, ang (g a) (g p) (g b) = ang a p b)
+    (pi r : Rat) (n : Nat) (v : Nat → α) : areaFn ang pi r n (fun j => g (v j)) = areaFn ang pi r n v := by
+  unfold areaFn angleSumFn
+  simp only [hg]
+
+/-- **inverse**: traversing the vertices in the opposite order gives the complement, provided the angle seen from the other side is
+`2·pi` minus the angle (`ang b p a = 2 pi - ang a p b`) -/
+theorem area_inverse (ang : α → α → α → Rat) (pi r : Rat) (n : Nat) (hn : 3 ≤ n) (v : Nat → α)
+    (hflip : ∀ a p b, ang b p a = 2 * pi - ang a p b) :
+    areaFn ang pi r n v + areaFn ang pi r n (fun j => v (n - 1 - j)) = 4 * pi * (r * r) := by
+  unfold areaFn angleSumFn
+  rw [sum_range_eq, sum_range_eq]
+  -- the reversed polygon's triple i is the flipped triple n-3-i (mod n) of the original
+  have key : ∑ i ∈ range n, ang (v (n - 1 - i)) (v (n - 1 - (i + 1) % n)) (v (n - 1 - (i + 2) % n)) =
+      ∑ i ∈ range n, (2 * pi - ang (v i) (v ((i + 1) % n)) (v ((i + 2) % n))) := by
+    have hr := cyc_reflect n (by omega) (fun j => 2 * pi - ang (v (j % n)) (v ((j + 1) % n)) (v ((j + 2) % n))) (n - 2)
+    have e2 : ∀ i ∈ range n, (2 * pi - ang (v (i % n)) (v ((i + 1) % n)) (v ((i + 2) % n))) = (2 * pi - ang (v i) (v ((i + 1) % n)) (v ((i + 2) % n))) := by
+      intro i hi; rw [Nat.mod_eq_of_lt (mem_range.mp hi)]
+    rw [Finset.sum_congr rfl e2] at hr
+    rw [← hr]
+    apply Finset.sum_congr rfl
+    intro i hi
+    have hi' := mem_range.mp hi
+    rw [hflip]
+    congr 2
+    -- j = (n - 2 + (n - 1 - i)) % n ; need v (j % n) = v (n - 1 - (i+2)%n), v ((j+1)%n) = v (n-1-(i+1)%n), v ((j+2)%n) = v (n-1-i)
+    · congr 1
+      rw [Nat.mod_mod]
+      by_cases h2 : i + 2 < n
+      · rw [Nat.mod_eq_of_lt h2]
+        have : n - 2 + (n - 1 - i) = n + (n - 1 - (i + 2)) := by omega
+        rw [this, Nat.add_mod_left, Nat.mod_eq_of_lt (by omega)]
+      · have : (i + 2) % n = i + 2 - n := by
+          rw [Nat.mod_eq_sub_mod (by omega), Nat.mod_eq_of_lt (by omega)]
+        rw [this, Nat.mod_eq_of_lt (by omega)]; omega
+    · congr 1
+      rw [Nat.mod_add_mod]
+      by_cases h1 : i + 1 < n
+      · rw [Nat.mod_eq_of_lt h1]
+        have : n - 2 + (n - 1 - i) + 1 = n + (n - 1 - (i + 1)) := by omega
+        rw [this, Nat.add_mod_left, Nat.mod_eq_of_lt (by omega)]
+      · have : (i + 1) % n = i + 1 - n := by
+          rw [Nat.mod_eq_sub_mod (by omega), Nat.mod_eq_of_lt (by omega)]
+        rw [this, Nat.mod_eq_of_lt (by omega)]; omega
+    · congr 1
+      rw [Nat.mod_add_mod]
+      have : n - 2 + (n - 1 - i) + 2 = n + (n - 1 - i) := by omega
+      rw [this, Nat.add_mod_left, Nat.mod_eq_of_lt (by omega)]
+  rw [key, Finset.sum_sub_distrib]
+  simp only [Finset.sum_const, card_range, nsmul_eq_mul]
+  ring
+
+/-- the same skeleton from the list of angles -/
+theorem areaFn_eq_fromAngles (ang : α → α → α → Rat) (pi r : Rat) (n : Nat) (v : Nat → α) :
+    areaFn ang pi r n v = areaFromAngles pi r ((List.range n).map (fun i => ang (v i) (v ((i + 1) % n)) (v ((i + 2) % n)))) := by
+  unfold areaFn areaFromAngles angleSumFn
+  simp
+
+/-! ### the no-crossing decision of `_bool_oper` -/
+
+/-- a polygon contained in another is its own intersection with it, and the union is the containing one; polygons that neither
+cross nor contain each other have no intersection (and, by the library's convention, no union) -/
+theorem dispatch_spec :
+    dispatch false true false = .self ∧ dispatch false false true = .other ∧
+    dispatch true true false = .other ∧ dispatch true false true = .self ∧
+    (∀ u, dispatch u false false = .none) := by
+  refine ⟨rfl, rfl, rfl, rfl, fun u => by cases u <;> rfl⟩
+
+/-- the decision is symmetric: exchanging the two polygons picks the same geometric polygon -/
+theorem dispatch_comm (u a b : Bool) (hab : ¬ (a = true ∧ b = true)) :
+    dispatch u a b = (match dispatch u b a with | .self => .other | .other => .self | .none => .none) := by
+  cases u <;> cases a <;> cases b <;> simp_all [dispatch]
+
+
+
+/-- **additivity**: splitting a polygon of `n = m + q + 4` vertices along the diagonal from vertex `0` to vertex `k = m + 2` gives
+the polygons `v 0 … v k` and `v k … v (n-1), v 0`; if the two angles cut by the diagonal add up, the areas add up -/
+theorem area_split (ang : α → α → α → Rat) (pi r : Rat) (m q : Nat) (v : Nat → α)
+    (h0 : ang (v (m + q + 3)) (v 0) (v 1) = ang (v (m + q + 3)) (v 0) (v (m + 2)) + ang (v (m + 2)) (v 0) (v 1))
+    (hk : ang (v (m + 1)) (v (m + 2)) (v (m + 3)) = ang (v (m + 1)) (v (m + 2)) (v 0) + ang (v 0) (v (m + 2)) (v (m + 3))) :
+    areaFn ang pi r (m + q + 4) v =
+      areaFn ang pi r (m + 3) v + areaFn ang pi r (q + 3) (fun j => v ((m + 2 + j) % (m + q + 4))) := by
+  unfold areaFn angleSumFn
+  rw [sum_range_eq, sum_range_eq, sum_range_eq]
+  -- the big polygon
+  have hS : ∑ i ∈ range (m + q + 4), ang (v i) (v ((i + 1) % (m + q + 4))) (v ((i + 2) % (m + q + 4))) =
+      (∑ i ∈ range (m + 1), ang (v i) (v (i + 1)) (v (i + 2))) + ang (v (m + 1)) (v (m + 2)) (v (m + 3)) +
+      (∑ j ∈ range (q + 1), ang (v (m + 2 + j)) (v (m + 2 + j + 1)) (v ((m + 2 + j + 2) % (m + q + 4)))) +
+      ang (v (m + q + 3)) (v 0) (v 1) := by
+    have e : m + q + 4 = (m + 1) + 1 + (q + 1) + 1 := by ring
+    rw [e, Finset.sum_range_succ, Finset.sum_range_add, Finset.sum_range_succ]
+    have a1 : ∀ i ∈ range (m + 1), ang (v i) (v ((i + 1) % (m + 1 + 1 + (q + 1) + 1))) (v ((i + 2) % (m + 1 + 1 + (q + 1) + 1))) = ang (v i) (v (i + 1)) (v (i + 2)) := by
+      intro i hi
+      have := mem_range.mp hi
+      rw [Nat.mod_eq_of_lt (by omega), Nat.mod_eq_of_lt (by omega)]
+    rw [Finset.sum_congr rfl a1]
+    have a2 : ∀ j ∈ range (q + 1), ang (v (m + 1 + 1 + j)) (v ((m + 1 + 1 + j + 1) % (m + 1 + 1 + (q + 1) + 1))) (v ((m + 1 + 1 + j + 2) % (m + 1 + 1 + (q + 1) + 1))) =
+        ang (v (m + 2 + j)) (v (m + 2 + j + 1)) (v ((m + 2 + j + 2) % (m + 1 + 1 + (q + 1) + 1))) := by
+      intro j hj
+      have := mem_range.mp hj
+      rw [Nat.mod_eq_of_lt (by omega : m + 1 + 1 + j + 1 < m + 1 + 1 + (q + 1) + 1)]
+    rw [Finset.sum_congr rfl a2]
+    have b1 : (m + 1 + 1) % (m + 1 + 1 + (q + 1) + 1) = m + 2 := Nat.mod_eq_of_lt (by omega)
+    have b2 : (m + 1 + 2) % (m + 1 + 1 + (q + 1) + 1) = m + 3 := Nat.mod_eq_of_lt (by omega)
+    have b3 : (m + 1 + 1 + (q + 1) + 1) % (m + 1 + 1 + (q + 1) + 1) = 0 := Nat.mod_self _
+    have b4 : (m + 1 + 1 + (q + 1) + 2) % (m + 1 + 1 + (q + 1) + 1) = 1 := by
+      rw [show m + 1 + 1 + (q + 1) + 2 = (m + 1 + 1 + (q + 1) + 1) + 1 by ring, Nat.add_mod_left, Nat.mod_eq_of_lt (by omega)]
+    rw [b1, b2, b3, b4]
+    have c1 : m + 1 + 1 + (q + 1) = m + q + 3 := by ring
+    rw [c1]
+  have modn : ∀ a n b : Nat, (a = n + b ∨ a = b) → b < n → a % n = b := by
+    intro a n b h hb
+    rcases h with h | h
+    · rw [h, Nat.add_mod_left, Nat.mod_eq_of_lt hb]
+    · rw [h, Nat.mod_eq_of_lt hb]
+  have t : ∀ a b c a' b' c', a = a' → b = b' → c = c' → ang (v a) (v b) (v c) = ang (v a') (v b') (v c') := by
+    intros; subst_vars; rfl
+  -- the first part
+  have hS1 : ∑ i ∈ range (m + 3), ang (v i) (v ((i + 1) % (m + 3))) (v ((i + 2) % (m + 3))) =
+      (∑ i ∈ range (m + 1), ang (v i) (v (i + 1)) (v (i + 2))) + ang (v (m + 1)) (v (m + 2)) (v 0) + ang (v (m + 2)) (v 0) (v 1) := by
+    rw [show m + 3 = (m + 1) + 1 + 1 by ring, Finset.sum_range_succ, Finset.sum_range_succ]
+    have a1 : ∀ i ∈ range (m + 1), ang (v i) (v ((i + 1) % (m + 1 + 1 + 1))) (v ((i + 2) % (m + 1 + 1 + 1))) = ang (v i) (v (i + 1)) (v (i + 2)) := by
+      intro i hi
+      have := mem_range.mp hi
+      rw [Nat.mod_eq_of_lt (by omega), Nat.mod_eq_of_lt (by omega)]
+    rw [Finset.sum_congr rfl a1]
+    congr 1
+    · congr 1
+      apply t
+      · rfl
+      · exact modn _ _ _ (by omega) (by omega)
+      · exact modn _ _ _ (by omega) (by omega)
+    · apply t
+      · rfl
+      · exact modn _ _ _ (by omega) (by omega)
+      · exact modn _ _ _ (by omega) (by omega)
+  -- the second part
+  have hS2 : ∑ j ∈ range (q + 3), ang (v ((m + 2 + j) % (m + q + 4))) (v ((m + 2 + (j + 1) % (q + 3)) % (m + q + 4))) (v ((m + 2 + (j + 2) % (q + 3)) % (m + q + 4))) =
+      (∑ j ∈ range (q + 1), ang (v (m + 2 + j)) (v (m + 2 + j + 1)) (v ((m + 2 + j + 2) % (m + q + 4)))) +
+      ang (v (m + q + 3)) (v 0) (v (m + 2)) + ang (v 0) (v (m + 2)) (v (m + 3)) := by
+    rw [show q + 3 = (q + 1) + 1 + 1 by ring, Finset.sum_range_succ, Finset.sum_range_succ]
+    have a1 : ∀ j ∈ range (q + 1), ang (v ((m + 2 + j) % (m + q + 4))) (v ((m + 2 + (j + 1) % (q + 1 + 1 + 1)) % (m + q + 4))) (v ((m + 2 + (j + 2) % (q + 1 + 1 + 1)) % (m + q + 4))) =
+        ang (v (m + 2 + j)) (v (m + 2 + j + 1)) (v ((m + 2 + j + 2) % (m + q + 4))) := by
+      intro j hj
+      have := mem_range.mp hj
+      apply t
+      · exact modn _ _ _ (by omega) (by omega)
+      · rw [modn ((j + 1)) (q + 1 + 1 + 1) (j + 1) (by omega) (by omega)]
+        exact modn _ _ _ (by omega) (by omega)
+      · rw [modn ((j + 2)) (q + 1 + 1 + 1) (j + 2) (by omega) (by omega), show m + 2 + (j + 2) = m + 2 + j + 2 by ring]
+    rw [Finset.sum_congr rfl a1]
+    congr 1
+    · congr 1
+      apply t
+      · exact modn _ _ _ (by omega) (by omega)
+      · rw [modn (q + 1 + 1) (q + 1 + 1 + 1) (q + 2) (by omega) (by omega)]
+        exact modn _ _ _ (by omega) (by omega)
+      · rw [modn (q + 1 + 2) (q + 1 + 1 + 1) 0 (by omega) (by omega)]
+        exact modn _ _ _ (by omega) (by omega)
+    · apply t
+      · exact modn _ _ _ (by omega) (by omega)
+      · rw [modn (q + 1 + 1 + 1) (q + 1 + 1 + 1) 0 (by omega) (by omega)]
+        exact modn _ _ _ (by omega) (by omega)
+      · rw [modn (q + 1 + 1 + 2) (q + 1 + 1 + 1) 1 (by omega) (by omega)]
+        exact modn _ _ _ (by omega) (by omega)
+  rw [hS, hS1, hS2, h0, hk]
+  push_cast
+  ring
+
+
+/-! ### non-vacuity -/
+
+/-- a "square" with four right angles (pi = 22/7 as a rational stand-in): excess zero; an octant triangle has three right angles -/
+example : areaFromAngles (22/7) 1 [11/7, 11/7, 11/7] = 11/7 := by decide +kernel
+example : areaFn (fun (_ _ _ : Nat) => (11/7 : Rat)) (22/7) 2 3 id = 4 * (11/7) := by decide +kernel
 
 end PyresampleModel.C17
